@@ -304,6 +304,9 @@ class RDD:
             return self.context.parallelize(self.toLocalIterator(), numPartitions)
 
         current_num_partitions = self.getNumPartitions()
+        if current_num_partitions == 0:
+            # nothing to merge (e.g. an empty batch of a stream)
+            return self
         new_num_partitions = min(numPartitions, current_num_partitions)
 
         # Group partitions that will be coalesced together
